@@ -1,5 +1,6 @@
 (* Single entry point of the executable models: function id + argument tree -> result tree. *)
 From PV Require Export Model.ComponentsX Model.EnginesX Model.SelectX.
+From PV Require Model.RemoteJob.   (* not exported: its short names (step, run, status, ...) stay qualified *)
 
 Definition dispatch (f : Z) (x : sx) : sx :=
   match f with
@@ -7,5 +8,6 @@ Definition dispatch (f : Z) (x : sx) : sx :=
   | 10 => x_run_prog x
   | 20 => x_amps x | 21 => x_amp1 x | 22 => x_dist x | 23 => x_masked x | 24 => x_submatrix x
   | 40 => x_condition x
+  | 1700 => RemoteJob.x_rj_code x | 1701 => RemoteJob.x_rj_patch x | 1702 => RemoteJob.x_rj_spec x
   | _ => L []
   end%Z.
